@@ -12,6 +12,7 @@ TEXTS = [
     'x = (1,' + '\n' * 200000 + '2)', 'x = 1 +' + '\\\n' * 200000 + '2',   # blank lines inside brackets / line continuations: no stack growth per line
     'a = 1.5e\nb = 2', 'a = .5e\nb', 'a = 1.5e3 + b', 'a = 1e+3 + b', 'a = 1.5e', 'a = 1.5ex + b',   # exponent part of a number literal
     'f x =\n    x\n    ', 'f x =\n    g y =\n        y\n    ', 'f x =\n    x\n  ', 'f x =\n    x\n', 'f x =\n    x', 'a =\n  b =\n    c\n  d\ne', '  a', 'a\n\n\n', 'if x:\n    (1,\n2)\n', 'x = `+`(1, 2)', 'x = `a\nb`', 'x = `+',   # indentation at end of input, layout
+    'a = 1 + \\\n"s" + b', '\\\n#[]#x', 'x = (1,\n   "s", y)', 'x = 1 #[ c\nd ]# + y',   # positions after a line continuation / a line break in brackets followed by a string or comment
     'a =\n    1\nb = 2', 'if True:\n    a = "q\\n" + c\n', 'a = #[ x\n y ]# 1 + b', '\\', 'a\\', "'", "''", '"""', "'''", 'a = "\\0\\r\\\'\\"" + z',
 ]
 
